@@ -218,6 +218,46 @@ impl Mach {
         }
     }
 
+    /// A machine whose `user_input` is the receiving end of a channel (the public
+    /// `InputStreamConfig::channel()` seam); the harness keeps the sending end.
+    pub fn with_channel_input() -> (Mach, scryer_prolog::UserInput) {
+        let (tx, cfg) = scryer_prolog::InputStreamConfig::channel();
+        let streams = scryer_prolog::StreamConfig::in_memory().with_user_input(cfg);
+        let mut m = Box::new(MachineBuilder::default().with_streams(streams).build());
+        vh::set_machine_rng(&mut m, 0x5EED);
+        m.load_module_string("verif_helpers", HELPERS.to_string());
+        (
+            Mach {
+                m: Some(m),
+                queries: 0,
+                poisoned: false,
+                corpse: None,
+            },
+            tx,
+        )
+    }
+
+    /// A machine whose `user_input` is an in-memory string (`InputStreamConfig::string`): an owned
+    /// `String` becomes a byte-cursor stream, a `&'static str` a static-string stream.
+    pub fn with_input_string(text: String, as_static: bool) -> Mach {
+        let cfg = if as_static {
+            let leaked: &'static str = Box::leak(text.into_boxed_str());
+            scryer_prolog::InputStreamConfig::string(leaked)
+        } else {
+            scryer_prolog::InputStreamConfig::string(text)
+        };
+        let streams = scryer_prolog::StreamConfig::in_memory().with_user_input(cfg);
+        let mut m = Box::new(MachineBuilder::default().with_streams(streams).build());
+        vh::set_machine_rng(&mut m, 0x5EED);
+        m.load_module_string("verif_helpers", HELPERS.to_string());
+        Mach {
+            m: Some(m),
+            queries: 0,
+            poisoned: false,
+            corpse: None,
+        }
+    }
+
     pub fn machine(&mut self) -> &mut Machine {
         self.m.as_mut().expect("machine poisoned")
     }
